@@ -622,6 +622,11 @@ class Evaluator:
         self.alloc_comps: Dict[tuple, tuple] = {}
         self.param_classes: Dict[str, ClassInfo] = {}
         self.unpacked: Dict[tuple, int] = {}
+        if not index.__dict__.get("_make_arity_done"):
+            index.__dict__["_make_arity_done"] = True
+            for ci_ in index.all_classes():
+                if not ci_.bases and any(str(b).split(".")[-1] == "NamedTuple" for b in ci_.ext_bases):
+                    _MAKE_ARITY[ci_.qual] = len([st for st in ci_.node.body if isinstance(st, ast.AnnAssign)])
         self.rec_types: Dict[tuple, ClassInfo] = {}  # opaque values (loop elements, parameters) known to be NamedTuple records
 
     # ------------------------------------------------------------------ plumbing
@@ -1907,6 +1912,8 @@ class Evaluator:
             return self._is_record(t[2]) and self._is_record(t[3])
         if t[0] == "call" and t[1][0] == "global" and t[1][2] == "class":
             ci = self.index.class_by_qual(t[1][1])
+            if ci is not None and not ci.bases and any(b.split(".")[-1] == "NamedTuple" for b in ci.ext_bases):
+                _MAKE_ARITY[t[1][1]] = len([st for st in ci.node.body if isinstance(st, ast.AnnAssign)])
             return ci is not None and not ci.bases and (
                 any(b.split(".")[-1] == "NamedTuple" for b in ci.ext_bases)
                 or any(ast.unparse(d).split("(")[0].split(".")[-1] == "dataclass" for d in ci.node.decorator_list))
@@ -1938,7 +1945,8 @@ class Evaluator:
                     # a guard of the property that cannot fire for THIS record (`if self.frames is None: raise` with frames = int(...))
                     b_ = {("param", ps.params[0]): t}
                     if all(fold_sub(self._fold_records(fold_sub(subst(e.live, b_)))) == FALSE for e in ps.events if e.kind == "raise"):
-                        return fold_sub(self._fold_records(fold_sub(subst(rets[0].term, b_))))
+                        rv_ = self._retype(rets[0].term, self._record_class_of_annotation(getattr(node, "returns", None), ci.module))
+                        return fold_sub(self._fold_records(fold_sub(subst(rv_, b_))))
             return None
         if attr is not None:
             return rv.get(attr)
@@ -3164,6 +3172,17 @@ class Evaluator:
             fname = f"{cls.name}.{f[2]}"
             modname = module.name
             selfterm = f[1]
+        elif f[0] == "attr" and f[1][0] == "global" and f[1][2] == "class" and self._is_record(("call", f[1], (), ())) \
+                and self.index.class_by_qual(f[1][1]) is not None and f[2] in self.index.class_by_qual(f[1][1]).methods:
+            # a classmethod of a record class called on the class (`Bounds.of(geometry)`): its body with cls bound to the class
+            cls = self.index.class_by_qual(f[1][1])
+            node = pick_def(cls.methods[f[2]])
+            if not any(ast.unparse(d) == "classmethod" for d in node.decorator_list):
+                return None
+            module = cls.module
+            fname = f"{cls.name}.{f[2]}"
+            modname = module.name
+            selfterm = f[1]
         elif f[0] == "attr" and f[1] in (("param", "self"), ("param", "cls")) and self.cls is not None:
             rcls = getattr(self, "dyn_cls", None) or self.cls
             found = rcls.find_method(f[2])
@@ -4313,6 +4332,9 @@ def _merge_two_yields(cs):
     return dataclasses.replace(cs, events=events)
 
 
+_MAKE_ARITY: Dict[str, int] = {}  # qualified name of a NamedTuple class of the analysed tree -> number of fields (filled by the evaluator)
+
+
 NO_MATCH = ("global", "<no match>", "sentinel")  # the default of the next(...) a search helper is read as: equal to nothing else
 
 
@@ -4420,6 +4442,10 @@ def fold_sub(t):
     if t and t[0] == "call" and t[1][0] == "attr" and t[1][2] == "join" and t[1][1][0] == "const" and isinstance(t[1][1][1], str) \
             and len(t[2]) == 1 and not t[3] and _join_as_fstr(t[1][1][1], t[2][0]) is not None:
         return _join_as_fstr(t[1][1][1], t[2][0])  # the display became explicit through a substitution
+    if t and t[0] == "call" and t[1][0] == "attr" and t[1][2] == "_make" and t[1][1][0] == "global" and t[1][1][2] == "class" and len(t[2]) == 1 and not t[3] \
+            and _MAKE_ARITY.get(t[1][1][1]):
+        # Rec._make(x) of a NamedTuple record of n fields is Rec(x[0], ..., x[n-1]) (it raises unless x has exactly n items)
+        return ("call", t[1][1], tuple(fold_sub(("sub", t[2][0], ("const", i))) for i in range(_MAKE_ARITY[t[1][1][1]])), ())
     if t and t[0] == "call" and t[1][0] == "ext" and t[1][1].startswith("operator.") and not t[3] and not any(a[0] == "star" for a in t[2]):
         # operator.lt picked from a table / handed to a helper and applied there: the same normal form as in a direct call
         nm_ = t[1][1].split(".", 1)[1]
